@@ -320,14 +320,16 @@ func suiteGenesis(e *Env) {
 			e.Obs("setup-error %v", err)
 			return
 		}
-		d2 := &hdrv{c: b}
+		d2 := &hdrv{c: b, replaying: true, ppMode: hI % 3}
 		for _, blk := range h.Blocks {
 			for _, t := range blk.Txs {
 				raw, _ := base64.StdEncoding.DecodeString(t)
 				d2.pend = append(d2.pend, raw)
 			}
+			d2.userTxs = blk.User
 			d2.block(time.Duration(blk.Dt))
 		}
+		d2.replaying, d2.userTxs = false, 0 // from here on both chains propose their own blocks
 		same := len(d.lines) == len(d2.lines)
 		for i := 0; same && i < len(d.lines); i++ {
 			same = d.lines[i] == d2.lines[i]
